@@ -30,7 +30,7 @@ def requirements(tier):
     return {"min_counters": {"structure_checks": 150 * k, "values_checked": 20000 * k, "edges_checked": 40000 * k, "update_chains_checked": 4000 * k,
                              "perturbation_rebuilds": 600 * k, "perturbations_with_effect": 300 * k, "changed_slots_explained": 5000 * k,
                              "structure_checks_after_simulation": 15 * k, "json_edge_lists_compared": 40 * k},
-            "required_classes": ["job_shared_by_2_patterns", "jobless_pattern", "multi_timezone", "after_simulation", "after_toggle_on"]}
+            "required_classes": ["job_shared_by_2_patterns", "jobless_pattern", "multi_timezone", "after_simulation", "after_toggle_on", "builder_model"]}
 
 
 def held(x):
@@ -123,6 +123,30 @@ def closure(edges, start):
     return seen
 
 
+def descendants_by_objects(v):
+    """ids of the transitive children of v, following the value objects themselves (so that values of objects that an edit
+    disconnected from the system, which the model still recomputes, are followed too); entries of one dict are one node"""
+    seen_ids, seen_objs, todo = set(), set(), [v]
+    while todo:
+        x = todo.pop()
+        if id(x) in seen_objs:
+            continue
+        seen_objs.add(id(x))
+        sibs = [x]
+        c = getattr(x, "modeling_obj_container", None)
+        if c is not None and x is not v:
+            cur = c.__dict__.get(x.attr_name_in_mod_obj_container)
+            if isinstance(cur, dict) and any(e is x for e in cur.values()):
+                sibs = list(cur.values())
+        for sx in sibs:
+            seen_objs.add(id(sx))
+            for ch in sx.direct_children_with_id:
+                if held(ch):
+                    seen_ids.add(ch.id)
+                    todo.append(ch)
+    return seen_ids
+
+
 def check_json(E, system, anc, chi, V, C, ctx):
     d = E.system_to_json(system, save_calculated_attributes=True)
     C["json_edge_lists_compared"] += 1
@@ -161,7 +185,7 @@ def check_order(E, objs_list, anc, chi, V, C, ctx):
             except Exception as e:
                 V.append({"kind": f"attr_updates_chain raised {type(e).__name__}: {str(e)[:160]}", "input": v.id, **ctx}); continue
             ids = [x.id for x in chain if not x.attr_name_in_mod_obj_container.startswith(BOOK)]
-            D = {i for i in closure(chi, v.id) if not i.split("-in-")[0].startswith(BOOK)}
+            D = {i for i in descendants_by_objects(v) if not i.split("-in-")[0].startswith(BOOK)}
             if len(ids) != len(set(ids)):
                 V.append({"kind": "update chain lists a dependent twice", "input": v.id, **ctx}); continue
             if set(ids) != D:
@@ -209,6 +233,10 @@ def perturbations(rnd, spec):
                 for t in ("autoscaling", "on-premise", "serverless"):
                     if t != vs[1]:
                         out.append((n, p, ["s", t], "-> " + t))
+            elif vs[0] == "s" and p not in ("provider",):
+                from .c17 import categorical_alternatives
+                for alt in categorical_alternatives(rnd, spec, n, p):
+                    out.append((n, p, ["s", alt], "-> " + alt))
             elif vs[0] == "none" and p == "fixed_nb_of_instances":
                 out.append((n, p, ["q", 1e6, "dimensionless"], "empty -> 1e6 instances"))
             elif vs[0] == "tz":
@@ -223,7 +251,9 @@ def completeness(E, h, anc, V, C, rnd, tier):
         return
     P = perturbations(rnd, spec)
     if tier == "quick":
-        rnd.shuffle(P); P = P[:24]
+        rnd.shuffle(P)
+        cat = [x for x in P if x[2][0] in ("s", "tz", "none") or x[2][0] == "q" and x[3].startswith("empty")]
+        P = (cat[:12] + [x for x in P if x not in cat])[:24 if not cat else 30]
     ids = {n: h.objs[n].id for n in spec["objects"] if n in h.objs}
     anc_closure = {}
     for n, p, new, label in P:
@@ -260,11 +290,15 @@ def completeness(E, h, anc, V, C, rnd, tier):
 def run_case(case):
     E = env.load()
     rnd = case_rng(case["seed"], case["idx"], "C08")
-    h = Hist(rnd, case["tier"], max_len=24 if case["tier"] == "quick" else 50)
+    spec0 = None
+    if case["idx"] % 6 == 5:
+        from .c17 import builder_spec
+        spec0 = builder_spec(rnd)
+    h = Hist(rnd, case["tier"], spec=spec0, max_len=24 if case["tier"] == "quick" else 50)
     C = {k: 0 for k in ("structure_checks", "values_checked", "edges_checked", "update_chains_checked", "perturbation_rebuilds",
                         "perturbations_with_effect", "changed_slots_explained", "structure_checks_after_simulation", "json_edge_lists_compared",
                         "perturbation_refused", "build_failed")}
-    classes = set(gen.topo_classes(h.spec))
+    classes = set(gen.topo_classes(h.spec)) | ({"builder_model"} if spec0 is not None else set())
     if h.build_error:
         C["build_failed"] = 1
         return {"counters": C, "classes": sorted(classes), "violations": []}
